@@ -53,7 +53,7 @@ def plan(tier, seed):
     groups += [fam[k:k + 150] for k in range(0, len(fam), 150)]
     groups.append([{"kind": "field", "xtal": n, "fieldseed": k} for n in GEO_LATTICES for k in range(16 if tier != "quick" else 4)])
     xt = ["NaCl-prim-2", "hcp-2", "tri-P1-3", "rhomb-prim-2", "mono-P21-2", "bct-conv-2"]
-    meshes = [[3, 3, 3], [4, 3, 2], [2, 2, 5]] if tier == "quick" else [[3, 3, 3], [4, 3, 2], [2, 2, 5], [5, 5, 5], [4, 4, 4], [1, 1, 7], [6, 2, 3], [7, 7, 7]]
+    meshes = [[3, 3, 3], [4, 3, 2], [2, 2, 5], [2, 3, 4]] if tier == "quick" else [[3, 3, 3], [4, 3, 2], [2, 2, 5], [5, 5, 5], [4, 4, 4], [1, 1, 7], [6, 2, 3], [7, 7, 7]]
     if deep:
         xt += ["wurtzite-4", "CsCl-2", "ortho-P-2", "diamond-prim-2", "trig-P3-4", "mono-Pc-2"]
     for n in xt:
@@ -345,6 +345,15 @@ def run_mesh(case, seed):
         if not tetra and abs(integ - nb) > tol:
             return fail("normalisation", "integral of the total DOS = %.5f, number of bands %d" % (integ, nb), abs(integ - nb) / nb)
         out[ms] = dos
+        if method == "tetra-omp":
+            # the compiled whole-mesh kernel and the Python iterator walk the same grid: same DOS
+            td2 = TotalDos(m, sigma=None, use_tetrahedron_method=True)
+            td2._openmp_thm = False
+            td2.set_draw_area(freq_min=lo, freq_max=hi, freq_pitch=pitch)
+            td2.run()
+            e = np.abs(np.array(td2.dos) - dos).max() / max(dos.max(), 1e-12)
+            if e > 1e-9:
+                return fail("omp-kernel-vs-iterator", "mesh_symmetry=%s: the compiled whole-mesh tetrahedron DOS differs from the per-grid-point iterator by %.3g (rel)" % (ms, e), float(e))
         if not ms:
             res = {}
             for opt, kw in (("atoms", {}), ("xyz", {"xyz_projection": True})):
